@@ -110,6 +110,78 @@ fn bare_parent_modules() -> Vec<(String, Vec<String>, String, Vec<String>)> {
     v
 }
 
+/// nested structs of the OTHER kind than the root (`#[child_parents(1: N as {})]` under a tuple root, `p: N as ()` under a
+/// named root), with and without a ghost addressed into the nested struct (seed C17-07: the root's hint used for a nested
+/// level).  8 fixed layouts.
+fn mixed_kind_modules() -> Vec<(String, Vec<String>, Vec<String>)> {
+    let mut v = vec![];
+    let d = "#[derive(Clone, Debug, PartialEq, Default)]";
+    for (root_tuple, cross) in [(true, false), (false, false), (true, true), (false, true)] {
+        // cross: the deriving struct is of the other kind than the root counterpart (root hint `as ()` / `as {}`)
+        for ghost in [false, true] {
+            for child_first in [false, true] {
+                let s_tuple = root_tuple != cross;
+                let mut m = String::from("#![allow(unused, non_camel_case_types, clippy::all)]\nuse crate::common::*;\nuse o2o::traits::*;\n");
+                // nested struct N is named under a tuple root and positional under a named root
+                let (n_def, n_lit): (String, Box<dyn Fn(i64, i64) -> String>) = if root_tuple {
+                    (format!("{d} pub struct N {{ pub x: i32{} }}", if ghost { ", pub g: i32" } else { "" }), Box::new(move |x, g| if ghost { format!("N {{ x: {}, g: {} }}", x, g) } else { format!("N {{ x: {} }}", x) }))
+                } else {
+                    (format!("{d} pub struct N(pub i32{});", if ghost { ", pub i32" } else { "" }), Box::new(move |x, g| if ghost { format!("N({}, {})", x, g) } else { format!("N({})", x) }))
+                };
+                m.push_str(&n_def);
+                m.push('\n');
+                // root: T(i32, N) / T(N, i32)  or  T { a, p } (field order is irrelevant for named)
+                let t_lit = |t: &str, a: i64, n: String| if root_tuple { if child_first { format!("{}({}, {})", t, n, a) } else { format!("{}({}, {})", t, a, n) } } else { format!("{} {{ a: {}, p: {} }}", t, a, n) };
+                for t in ["T", "Tf"] {
+                    if root_tuple {
+                        m.push_str(&format!("{d} pub struct {}({});\n", t, if child_first { "pub N, pub i32" } else { "pub i32, pub N" }));
+                    } else {
+                        m.push_str(&format!("{d} pub struct {} {{ pub a: i32, pub p: N }}\n", t));
+                    }
+                }
+                let (ci, ai) = if child_first { (0, 1) } else { (1, 0) };
+                let h = if !cross { "" } else if root_tuple { " as ()" } else { " as {}" };
+                let mut item = format!("#[map(T{h})]\n#[into_existing(T{h})]\n#[try_map(Tf{h}, Er)]\n#[try_into_existing(Tf{h}, Er)]\n");
+                // where the two members go in the counterpart
+                let (a_tgt, child_path, b_tgt) = if root_tuple { (ai.to_string(), ci.to_string(), "x".to_string()) } else { ("a".to_string(), "p".to_string(), "0".to_string()) };
+                item.push_str(&format!("#[child_parents({}: N as {})]\n", child_path, if root_tuple { "{}" } else { "()" }));
+                if ghost {
+                    item.push_str(&format!("#[ghosts({}@{}: {{ 7 }})]\n", child_path, if root_tuple { "g" } else { "1" }));
+                }
+                let (a, b) = if s_tuple {
+                    (format!("#[map({})] i32", a_tgt), format!("#[child({})] #[map({})] i32", child_path, b_tgt))
+                } else {
+                    (format!("#[map({})] pub a: i32", a_tgt), format!("#[child({})] #[map({})] pub b: i32", child_path, b_tgt))
+                };
+                let members = if child_first { format!("{}, {}", b, a) } else { format!("{}, {}", a, b) };
+                item.push_str(&if s_tuple { format!("pub struct S({});\n", members) } else { format!("pub struct S {{ {} }}\n", members) });
+                m.push_str(&format!("{d}\n#[derive(o2o::o2o)]\n{}", item));
+                let s_lit = |a: i64, b: i64| if s_tuple { if child_first { format!("S({}, {})", b, a) } else { format!("S({}, {})", a, b) } } else { format!("S {{ a: {}, b: {} }}", a, b) };
+                m.push_str("pub fn run(r: &mut Rec) {\n");
+                for (tn, fallible) in [("T", false), ("Tf", true)] {
+                    let f = if fallible { "try_" } else { "" };
+                    let wrap = |e: String| if fallible { format!("Ok::<_, Er>({})", e) } else { e };
+                    let tv = t_lit(tn, 10, n_lit(20, 99));
+                    let es = wrap(s_lit(10, 20));
+                    let et = t_lit(tn, 1, n_lit(2, 7));
+                    let pre = t_lit(tn, 900, n_lit(901, 902));
+                    // IntoExisting leaves a nested ghost slot alone only if there is no ghosts entry for it
+                    if fallible {
+                        m.push_str(&format!("  {{ let t = {tv}; r.eq(\"{f}from_owned\", &<S as TryFrom<{tn}>>::try_from(t.clone()), &{es}); r.eq(\"{f}from_ref\", &<S as TryFrom<&{tn}>>::try_from(&t), &{es}); }}\n"));
+                        m.push_str(&format!("  {{ let s = {sl}; r.eq(\"{f}owned_into\", &<S as TryInto<{tn}>>::try_into(s.clone()), &{e}); r.eq(\"{f}ref_into\", &<&S as TryInto<{tn}>>::try_into(&s), &{e}); let mut o1 = {pre}; let r1 = <S as TryIntoExisting<{tn}>>::try_into_existing(s.clone(), &mut o1); r.eq(\"{f}owned_into_existing\", &r1.map(|_| o1), &{e}); let mut o2 = {pre}; let r2 = <&S as TryIntoExisting<{tn}>>::try_into_existing(&s, &mut o2); r.eq(\"{f}ref_into_existing\", &r2.map(|_| o2), &{e}); }}\n", sl = s_lit(1, 2), e = wrap(et.clone())));
+                    } else {
+                        m.push_str(&format!("  {{ let t = {tv}; r.eq(\"from_owned\", &<S as From<{tn}>>::from(t.clone()), &{es}); r.eq(\"from_ref\", &<S as From<&{tn}>>::from(&t), &{es}); }}\n"));
+                        m.push_str(&format!("  {{ let s = {sl}; r.eq(\"owned_into\", &<S as Into<{tn}>>::into(s.clone()), &{et}); r.eq(\"ref_into\", &<&S as Into<{tn}>>::into(&s), &{et}); let mut o1 = {pre}; <S as IntoExisting<{tn}>>::into_existing(s.clone(), &mut o1); r.eq(\"owned_into_existing\", &o1, &{et}); let mut o2 = {pre}; <&S as IntoExisting<{tn}>>::into_existing(&s, &mut o2); r.eq(\"ref_into_existing\", &o2, &{et}); }}\n", sl = s_lit(1, 2)));
+                    }
+                }
+                m.push_str("}\n");
+                v.push((m, vec![item], vec!["mixed-kind".to_string(), format!("root={}", if root_tuple { "tuple" } else { "named" }), format!("ghost={}", ghost), format!("child_first={}", child_first), format!("cross={}", cross)]));
+            }
+        }
+    }
+    v
+}
+
 pub fn collect(tier: &str, caps: &Caps, rep: &Report) -> Vec<BItem> {
     let items: Mutex<Vec<BItem>> = Mutex::new(vec![]);
     let (co, cb) = child_opts(tier);
@@ -151,6 +223,10 @@ pub fn collect(tier: &str, caps: &Caps, rep: &Report) -> Vec<BItem> {
         v.push(BItem { space: "parent-bare".into(), choices: vec![i as u32], tags, inputs, module, nontrivial: true });
     }
     rep.add_stats("parent-bare", "full (8 fixed layouts)", &crate::explore::ExploreStats { leaves: 8, transitions: 8, ..Default::default() });
+    for (i, (module, inputs, tags)) in mixed_kind_modules().into_iter().enumerate() {
+        v.push(BItem { space: "mixed-kind".into(), choices: vec![i as u32], tags, inputs, module, nontrivial: true });
+    }
+    rep.add_stats("mixed-kind", "full (16 fixed layouts)", &crate::explore::ExploreStats { leaves: 16, transitions: 16, ..Default::default() });
     v
 }
 
@@ -198,6 +274,7 @@ pub fn replay(f: &Failure) -> i32 {
                 }
                 found
             }
+            "mixed-kind" => mixed_kind_modules().into_iter().enumerate().find(|(i, _)| vec![*i as u32] == f.choices).map(|(_, (module, inputs, tags))| BItem { space: f.space.clone(), choices: f.choices.clone(), tags, inputs, module, nontrivial: true }),
             _ => bare_parent_modules().into_iter().enumerate().find(|(i, _)| vec![*i as u32] == f.choices).map(|(_, (module, inputs, _, tags))| BItem { space: f.space.clone(), choices: f.choices.clone(), tags, inputs, module, nontrivial: true }),
         };
         let item = match item {
